@@ -170,7 +170,7 @@ CHECKS = {
              "each mentioned axis carries the image of the target (absolute) or the image of the target minus the image "
              "of the current position (relative; C04_relative_is_linear: the linear image of the displacement), and each "
              "axis not mentioned was not requested and has equal images -- every axis that has to change is mentioned. "
-             "C04_machine: a machine at transform(tracked) is at transform(new tracked) after the emitted move. "
+             "C04_machine: a machine at transform(tracked) is at transform(new tracked) after the emitted move; C04_history: hence after every move of every sequence of requests under a fixed transform. "
              "Correspondence: the implementation's own matrix (read through apply_transform) is handed to the model, "
              "words compared within one unit of the last place; oracle: machine == transform(position) after every move "
              "for random compositions (pivots, contexts entered/left mid-history), partial-axis moves, rapids, probes, "
